@@ -220,7 +220,9 @@ def escapeQuotes(text: str) -> str:
 
 
 def strToIntOrFloat(inputStr: str) -> float:
-    return float(inputStr) if "." in inputStr else int(inputStr)
+    # Numbers in exponent notation (e.g. '1e-05') are floats even without a '.'
+    isFloat = "." in inputStr or "e" in inputStr.lower()
+    return float(inputStr) if isFloat else int(inputStr)
 
 
 def getValueAtTime(
